@@ -152,7 +152,7 @@ func isAbstractTP(t types.Type) bool {
 }
 
 func typeKey(t types.Type) string {
-	return types.TypeString(t, func(p *types.Package) string { return p.Path() })
+	return types.TypeString(types.Unalias(t), func(p *types.Package) string { return p.Path() })
 }
 
 // TID: small positive integer per type, for interface tags and dyn().
@@ -178,6 +178,7 @@ func (tt *TypeTable) isOpaque(t types.Type) (Sort, bool) {
 
 // SortOf returns the SMT sort for values of Go type t.
 func (tt *TypeTable) SortOf(t types.Type) (Sort, error) {
+	t = types.Unalias(t)
 	if s, ok := tt.isOpaque(t); ok {
 		return s, nil
 	}
